@@ -8,6 +8,10 @@ Reading guide
   * `loadAll`           = the loading loop shared by the visit, joint and covariate layouts;
   * `tensorise store`   = `Dataset(data)`; `toTable` = `Dataset.to_pandas()`;
   * `store`             = what single-precision storage (and the 6-digit re-rounding of a re-ingestion) makes of an age.
+  * `ingestEventTable nb` = `Data.from_dataframe(df, "event", nb_events=nb)`; `ingestJoint dim nb` = the joint layout;
+                          `ingestCov dim nCov` = the covariate layout (on tables whose identifiers, ages and dtypes passed
+                          the common checks); `WellFormedEvents` / `WellFormedJoint` / `WellFormedCov` are decidable;
+  * `evKept` / `jKept` / `cKept` = the rows that `dropna(how="all")` keeps in each layout.
 -/
 import LeaspyVerif.Model.Ingest
 import LeaspyVerif.Lemmas.Ingest
@@ -416,72 +420,716 @@ theorem rejects_iff_malformed (t : RawTable) : (∃ c, ingestRaw t = .ok c) ↔ 
 def EvCellOk (r : EvRow) : Prop :=
   ∃ t q, r.time = .fin t ∧ 0 < t ∧ r.code = .fin q ∧ q.den = 1 ∧ 0 ≤ q.num
 
-private theorem evCell_ok {r : EvRow} {e : Event} (h : evCell r = .ok e) : EvCellOk r := by
-  unfold evCell at h
-  split at h
-  · cases h
-  · cases h
-  · rename_i t ht
-    split at h
-    · cases h
-    · rename_i hpos
-      split at h
-      · cases h
-      · cases h
-      · rename_i q hq
-        split at h
-        · cases h
-        · rename_i hc
-          simp only [bne_iff_ne, ne_eq, Bool.or_eq_true, decide_eq_true_eq, not_or, Decidable.not_not, Int.not_lt] at hc
-          exact ⟨t, q, ht, by omega, hq, hc.1, hc.2⟩
+/-! ## Event layout: acceptance iff well-formed, order of first appearance -/
 
-private theorem evCells_ok {rows : List EvRow} {l : List Event} (h : evCells rows = .ok l) :
-    ∀ r ∈ rows, EvCellOk r := by
-  induction rows generalizing l with
-  | nil => simp
-  | cons r rs ih =>
-    simp only [evCells] at h
-    split at h
-    · cases h
-    · rename_i ev hev
-      split at h
-      · cases h
-      · rename_i l' hl'
-        intro x hx
-        rcases mem_cons.1 hx with rfl | hx
-        · exact evCell_ok hev
-        · exact ih hl' x hx
+private theorem evCellOk_iff (r : EvRow) : EvCellOk r ↔ (evTimeOk r = true ∧ evCodeOk r = true) := by
+  obtain ⟨i, t, c⟩ := r
+  cases t <;> cases c <;> simp [EvCellOk, evTimeOk, evCodeOk]
+
+instance (r : EvRow) : Decidable (EvCellOk r) := decidable_of_iff _ (evCellOk_iff r).symm
+
+/-- a row of an event table that `dropna(how="all")` removes: both cells missing -/
+def EvMissing (r : EvRow) : Prop := r.time = .nan ∧ r.code = .nan
+
+instance (r : EvRow) : Decidable (EvMissing r) := by unfold EvMissing; infer_instance
+
+/-- A well-formed table of events, for the value `nb` of the reader's `nb_events` argument:
+    one row per individual; every row either entirely missing or with a positive finite time and a non-negative
+    integer indicator; at least one row that is not entirely missing; and the indicators compatible with `nb`
+    (`CountOk`: `nb` not given or 0 — some indicator is non-zero; `nb ≥ 1` given — the largest indicator is `nb`, or
+    all indicators are 0). -/
+def WellFormedEvents (nb : Option Nat) (rows : List EvRow) : Prop :=
+  (rows.map (·.id)).Nodup ∧
+  (∀ r ∈ rows, EvMissing r ∨ EvCellOk r) ∧
+  (∃ r ∈ rows, ¬ EvMissing r) ∧
+  CountOk nb ((evKept rows).map (fun r => evCode r.code))
+
+instance (nb : Option Nat) (rows : List EvRow) : Decidable (WellFormedEvents nb rows) := by
+  unfold WellFormedEvents; infer_instance
+
+private theorem mem_evKept {rows : List EvRow} {r : EvRow} : r ∈ evKept rows ↔ r ∈ rows ∧ ¬ EvMissing r := by
+  simp only [evKept, EvMissing, mem_filter, Bool.not_eq_eq_eq_not, Bool.not_true, Bool.and_eq_false_imp, beq_iff_eq,
+    beq_eq_false_iff_ne, ne_eq, not_and]
+
+private theorem no_inf_of_cells {rows : List EvRow} (h : ∀ r ∈ rows, EvMissing r ∨ EvCellOk r) :
+    rows.any evHasInf = false := by
+  rw [any_eq_false]
+  intro r hr
+  rcases h r hr with ⟨h1, h2⟩ | ⟨t, q, h1, _, h2, _⟩ <;> simp [evHasInf, h1, h2]
+
+private theorem events_ok_iff {nb : Option Nat} {rows : List EvRow} {res : List Event × Nat} :
+    ingestEventTable nb rows = .ok res ↔
+      WellFormedEvents nb rows ∧
+      res = ((evKept rows).map evOf, countOf nb ((evKept rows).map (fun r => evCode r.code))) := by
+  rw [ingestEventTable_eq]
+  by_cases hd : evIdDup rows = true
+  · simp only [hd, ↓reduceIte, reduceCtorEq, false_iff, not_and]
+    intro hw
+    have := evIdDup_false_iff.2 hw.1
+    rw [hd] at this; cases this
+  · have hd' : evIdDup rows = false := by simpa using hd
+    have hn := evIdDup_false_iff.1 hd'
+    have hnk : (((evKept rows).map evOf).map (·.id)).Nodup := by
+      rw [map_map]
+      exact hn.sublist (filter_sublist.map _)
+    have hcons : KeyConsistent (·.id) ((evKept rows).map evOf) :=
+      fun a ha b hb hab => eq_of_nodup_map (·.id) hnk ha hb hab
+    have hfirst : evFirst ((evKept rows).map evOf) = (evKept rows).map evOf := by
+      rw [evFirst_eq]; exact firstBy_of_nodup hnk
+    by_cases hi : rows.any evHasInf = true
+    · simp only [hd', Bool.false_eq_true, hi, ↓reduceIte, reduceCtorEq, false_iff, not_and]
+      intro hw
+      have := no_inf_of_cells hw.2.1
+      rw [hi] at this; cases this
+    · simp only [hd', Bool.false_eq_true, hi, ↓reduceIte, ingestEvents_ok_iff, hfirst]
+      constructor
+      · rintro ⟨h1, _, h3, h4, h5⟩
+        refine ⟨⟨hn, ?_, ?_, h4⟩, h5⟩
+        · intro r hr
+          by_cases hm : EvMissing r
+          · exact Or.inl hm
+          · exact Or.inr ((evCellOk_iff r).2 (h1 r (mem_evKept.2 ⟨hr, hm⟩)))
+        · cases hk : evKept rows with
+          | nil => exact absurd hk h3
+          | cons r rs =>
+            have : r ∈ evKept rows := by rw [hk]; simp
+            exact ⟨r, (mem_evKept.1 this).1, (mem_evKept.1 this).2⟩
+      · rintro ⟨⟨_, h2, ⟨r, hr, hm⟩, h4⟩, h5⟩
+        refine ⟨?_, hcons, ?_, h4, h5⟩
+        · intro s hs
+          have := mem_evKept.1 hs
+          rcases h2 s this.1 with h | h
+          · exact absurd h this.2
+          · exact (evCellOk_iff s).1 h
+        · intro hk
+          have : r ∈ evKept rows := mem_evKept.2 ⟨hr, hm⟩
+          rw [hk] at this; cases this
+
+/-- **Events, both directions.**  `Data.from_dataframe(df, "event")` accepts a table iff it is well-formed
+    (`WellFormedEvents`): a repeated individual, a missing / non-positive / infinite event time next to a present
+    indicator, a missing, fractional, negative or infinite indicator, a table whose rows are all entirely missing, no
+    observed event without a declared number of events, or a declared number different from the largest indicator,
+    are each refused (`Err` = `LeaspyDataInputError`) — and nothing else is. -/
+theorem events_rejects_iff_malformed (nb : Option Nat) (rows : List EvRow) :
+    (∃ res, ingestEventTable nb rows = .ok res) ↔ WellFormedEvents nb rows := by
+  constructor
+  · rintro ⟨res, h⟩; exact (events_ok_iff.1 h).1
+  · intro h; exact ⟨_, events_ok_iff.2 ⟨h, rfl⟩⟩
+
+/-- **Event-only data keep the order of first appearance (F9d, fixed).**  The individuals of an accepted table of
+    events are, in table order, exactly the rows that are not entirely missing: written back as rows
+    (`rowOfEvent`) the events *are* those rows, so no event is lost, moved to another individual, recoded or
+    reordered (in particular not sorted by identifier); the number of events is the declared one, else the largest
+    indicator. -/
+theorem events_first_appearance (nb : Option Nat) (rows : List EvRow) (res : List Event × Nat)
+    (h : ingestEventTable nb rows = .ok res) :
+    res.1.map (·.id) = firstIds ((evKept rows).map (·.id)) ∧
+    res.1.map (·.id) = (evKept rows).map (·.id) ∧
+    res.1.map rowOfEvent = evKept rows ∧
+    res.2 = countOf nb (res.1.map (·.code)) := by
+  obtain ⟨hw, rfl⟩ := events_ok_iff.1 h
+  have hn : ((evKept rows).map (·.id)).Nodup := hw.1.sublist (filter_sublist.map _)
+  have hcell : ∀ r ∈ evKept rows, evTimeOk r = true ∧ evCodeOk r = true := by
+    intro r hr
+    have := mem_evKept.1 hr
+    rcases hw.2.1 r this.1 with h | h
+    · exact absurd h this.2
+    · exact (evCellOk_iff r).1 h
+  simp only [map_map]
+  refine ⟨by rw [firstIds_of_nodup hn]; rfl, rfl, ?_, by rfl⟩
+  conv => rhs; rw [← map_id (evKept rows)]
+  apply map_congr_left
+  intro r hr
+  exact evOf_toRow (hcell r hr).1 (hcell r hr).2
+
+/-- In the event-only layout the per-individual uniqueness check of `(EVENT_TIME, EVENT_BOOL)` can never fire: the
+    index `ID` is unique before it is reached. -/
+theorem events_unique_check_unreachable (nb : Option Nat) (rows : List EvRow) :
+    ingestEventTable nb rows ≠ .error .eventUnique := by
+  rw [ingestEventTable_eq]
+  by_cases hd : evIdDup rows = true
+  · simp [hd]
+  · have hd' : evIdDup rows = false := by simpa using hd
+    have hnk : (((evKept rows).map evOf).map (·.id)).Nodup := by
+      rw [map_map]
+      exact (evIdDup_false_iff.1 hd').sublist (filter_sublist.map _)
+    have hc : evConsistent ((evKept rows).map evOf) = true :=
+      evConsistent_iff.2 (fun a ha b hb hab => eq_of_nodup_map (·.id) hnk ha hb hab)
+    by_cases hi : rows.any evHasInf = true
+    · simp [hd', hi]
+    · simp only [hd', hi, Bool.false_eq_true, ↓reduceIte, ingestEvents_eq, hc, Bool.not_true]
+      repeat' split
+      all_goals first | simp | skip
+      rename_i e he
+      intro h; cases h
+      simp only [evCount] at he
+      repeat' split at he
+      all_goals simp at he
+
+/-- Row-order independence of the event layout: the same rejection, or the same events up to their order. -/
+theorem events_perm (nb : Option Nat) {t₁ t₂ : List EvRow} (h : t₁.Perm t₂) :
+    (∀ e, ingestEventTable nb t₁ = .error e ↔ ingestEventTable nb t₂ = .error e) ∧
+    (∀ ev₁ n, ingestEventTable nb t₁ = .ok (ev₁, n) → ∃ ev₂, ingestEventTable nb t₂ = .ok (ev₂, n) ∧ ev₁.Perm ev₂) := by
+  have hrel : ExceptRel (fun a b => a.1.Perm b.1 ∧ a.2 = b.2) (ingestEventTable nb t₁) (ingestEventTable nb t₂) := by
+    have hd : evIdDup t₁ = evIdDup t₂ := by
+      have := (h.map (·.id)).nodup_iff
+      rw [← evIdDup_false_iff, ← evIdDup_false_iff] at this
+      cases h1 : evIdDup t₁ <;> cases h2 : evIdDup t₂ <;> simp_all
+    rw [ingestEventTable_eq, ingestEventTable_eq, hd, h.any_eq]
+    by_cases h1 : evIdDup t₂ = true
+    · simp [h1, ExceptRel]
+    · by_cases h2 : t₂.any evHasInf = true
+      · simp [h1, h2, ExceptRel]
+      · simp only [h1, h2, Bool.false_eq_true, ↓reduceIte]
+        exact ingestEvents_perm nb (h.filter _)
+  refine ⟨hrel.error_iff, ?_⟩
+  intro ev₁ n h1
+  obtain ⟨⟨ev₂, n'⟩, h2, hp, hn⟩ := hrel.ok_imp h1
+  simp only at hp hn
+  subst hn
+  exact ⟨ev₂, h2, hp⟩
+
 
 /-- **Events**: a table of events is accepted only if every individual appears once and every row is
     either entirely missing (dropped) or has a positive finite event time and a non-negative integer
     event indicator: missing, fractional, negative or infinite indicators and non-positive, missing or
-    infinite times are rejected (with a data-input error), never silently recoded. -/
+    infinite times are rejected (with a data-input error), never silently recoded.
+    (One direction; `events_rejects_iff_malformed` is the equivalence.) -/
 theorem events_rejects_malformed (nb : Option Nat) (rows : List EvRow) (res : List Event × Nat)
     (h : ingestEventTable nb rows = .ok res) :
     evIdDup rows = false ∧
     ∀ r ∈ rows, (r.time = .nan ∧ r.code = .nan) ∨ EvCellOk r := by
-  unfold ingestEventTable at h
-  split at h
-  · cases h
-  · rename_i hd
-    split at h
-    · cases h
-    · refine ⟨by simpa using hd, ?_⟩
-      intro r hr
-      by_cases hn : r.time = .nan ∧ r.code = .nan
-      · exact Or.inl hn
-      · right
-        unfold ingestEvents at h
-        split at h
-        · cases h
-        · rename_i l hl
-          apply evCells_ok hl r
-          simp only [mem_filter, Bool.not_eq_eq_eq_not, Bool.not_true, Bool.and_eq_false_imp, beq_iff_eq]
-          refine ⟨hr, ?_⟩
-          intro h1
-          by_cases h2 : r.code = .nan
-          · exact absurd ⟨h1, h2⟩ hn
-          · simpa using h2
+  obtain ⟨hw, _⟩ := events_ok_iff.1 h
+  exact ⟨evIdDup_false_iff.2 hw.1, hw.2.1⟩
+
+/-! ## Joint layout -/
+
+/-- the event time `t` is earlier than the visit at age `a` by more than the tolerance (`tol_diff = 0.001`) -/
+def EventBefore (t : Cell Int) (a : Int) : Prop :=
+  match t with
+  | .fin t => t - a < -tolMicro
+  | _ => False
+
+instance (t : Cell Int) (a : Int) : Decidable (EventBefore t a) := by unfold EventBefore; split <;> infer_instance
+
+/-- A well-formed joint table (`dim` feature columns, `nb` = the reader's `nb_events` argument).
+    *Visit part*: no duplicate `(ID, TIME)`, some row that is not entirely missing, at least one feature column.
+    *Event part*, on the rows that are kept (`jKept`: not entirely missing over features **and** event columns):
+    acceptable event cells on every kept row, one `(EVENT_TIME, EVENT_BOOL)` per individual, indicators compatible
+    with `nb`.  *Cross check*: an event earlier than some visit of its individual by more than the tolerance must be
+    censored (indicator 0). -/
+def WellFormedJoint (dim : Nat) (nb : Option Nat) (rows : List JRow) : Prop :=
+  (rows.map (fun r => (r.row.id, r.row.age))).Nodup ∧
+  (∃ r ∈ rows, jDropped r = false) ∧
+  1 ≤ dim ∧
+  (∀ r ∈ rows, jDropped r = true ∨ EvCellOk (jEv r)) ∧
+  (∀ r ∈ jKept rows, ∀ s ∈ jKept rows, r.row.id = s.row.id → r.time = s.time ∧ r.code = s.code) ∧
+  CountOk nb ((jKept rows).map (fun r => evCode r.code)) ∧
+  (∀ r ∈ jKept rows, ∀ s ∈ jKept rows, r.row.id = s.row.id → EventBefore r.time s.row.age → evCode r.code = 0)
+
+instance (dim : Nat) (nb : Option Nat) (rows : List JRow) : Decidable (WellFormedJoint dim nb rows) := by
+  unfold WellFormedJoint; infer_instance
+
+private theorem mem_jKept {rows : List JRow} {r : JRow} : r ∈ jKept rows ↔ r ∈ rows ∧ jDropped r = false := by
+  simp [jKept]
+
+private theorem jDropped_cells {r : JRow} (h : jDropped r = true) : r.time = .nan ∧ r.code = .nan := by
+  simp only [jDropped, Bool.and_eq_true, beq_iff_eq] at h
+  exact ⟨h.1.2, h.2⟩
+
+private theorem joint_ok_iff {dim : Nat} {nb : Option Nat} {rows : List JRow} {res : Canon × List Event × Nat} :
+    ingestJoint dim nb rows = .ok res ↔
+      WellFormedJoint dim nb rows ∧
+      res = (canon ((jKept rows).map (·.row)), evFirst (((jKept rows).map jEv).map evOf),
+             countOf nb ((jKept rows).map (fun r => evCode r.code))) := by
+  rw [ingestJoint_eq]
+  have hkeys : rowKeyDup (rows.map (·.row)) = false ↔ (rows.map (fun r => (r.row.id, r.row.age))).Nodup := by
+    rw [rowKeyDup_false_iff, map_map]; rfl
+  have hcodes : ((jKept rows).map jEv).map (fun r => evCode r.code) = (jKept rows).map (fun r => evCode r.code) := by
+    rw [map_map]; rfl
+  by_cases hd : rowKeyDup (rows.map (·.row)) = true
+  · simp only [hd, ↓reduceIte, reduceCtorEq, false_iff, not_and]
+    intro hw; have := hkeys.2 hw.1; rw [hd] at this; cases this
+  have hd' : rowKeyDup (rows.map (·.row)) = false := by simpa using hd
+  by_cases hi : rows.any (fun r => r.time == .inf || r.code == .inf) = true
+  · simp only [hd', hi, Bool.false_eq_true, ↓reduceIte, reduceCtorEq, false_iff, not_and]
+    intro hw
+    obtain ⟨r, hr, hinf⟩ := any_eq_true.1 hi
+    rcases hw.2.2.2.1 r hr with h | ⟨t, q, h1, _, h2, _⟩
+    · have := jDropped_cells h; simp [this.1, this.2] at hinf
+    · simp only [jEv] at h1 h2; simp [h1, h2] at hinf
+  by_cases he : (jKept rows).isEmpty = true
+  · simp only [hd', hi, he, Bool.false_eq_true, ↓reduceIte, reduceCtorEq, false_iff, not_and]
+    intro hw
+    obtain ⟨r, hr, hk⟩ := hw.2.1
+    have : r ∈ jKept rows := mem_jKept.2 ⟨hr, hk⟩
+    rw [isEmpty_iff.1 he] at this; cases this
+  by_cases hdim : dim < 1
+  · simp only [hd', hi, he, hdim, Bool.false_eq_true, ↓reduceIte, reduceCtorEq, false_iff, not_and]
+    intro hw; have := hw.2.2.1; omega
+  simp only [hd', hi, he, hdim, Bool.false_eq_true, ↓reduceIte]
+  have hne : ∃ r ∈ rows, jDropped r = false := by
+    cases hk : jKept rows with
+    | nil => rw [hk] at he; simp at he
+    | cons r rs =>
+      have : r ∈ jKept rows := by rw [hk]; simp
+      exact ⟨r, (mem_jKept.1 this).1, (mem_jKept.1 this).2⟩
+  -- the event part, translated to the rows of the table
+  have hcellT : (∀ r ∈ (jKept rows).map jEv, evTimeOk r = true ∧ evCodeOk r = true) ↔
+      ∀ r ∈ rows, jDropped r = true ∨ EvCellOk (jEv r) := by
+    simp only [mem_map, forall_exists_index, and_imp, forall_apply_eq_imp_iff₂]
+    constructor
+    · intro h r hr
+      by_cases hk : jDropped r = true
+      · exact Or.inl hk
+      · exact Or.inr ((evCellOk_iff _).2 (h r (mem_jKept.2 ⟨hr, by simpa using hk⟩)))
+    · intro h r hr
+      have := mem_jKept.1 hr
+      rcases h r this.1 with h | h
+      · rw [this.2] at h; cases h
+      · exact (evCellOk_iff _).1 h
+  have hconsT : (∀ r ∈ (jKept rows).map jEv, evTimeOk r = true ∧ evCodeOk r = true) →
+      (KeyConsistent (·.id) (((jKept rows).map jEv).map evOf) ↔
+        ∀ r ∈ jKept rows, ∀ s ∈ jKept rows, r.row.id = s.row.id → r.time = s.time ∧ r.code = s.code) := by
+    intro hc
+    simp only [mem_map, forall_exists_index, and_imp, forall_apply_eq_imp_iff₂] at hc
+    simp only [KeyConsistent, mem_map, forall_exists_index, and_imp, forall_apply_eq_imp_iff₂]
+    constructor
+    · intro h r hr s hs hid
+      have := evOf_inj (hc r hr) (hc s hs) (h r hr s hs hid)
+      simp only [jEv, EvRow.mk.injEq] at this
+      exact this.2
+    · intro h r hr s hs hid
+      have hid' : r.row.id = s.row.id := hid
+      obtain ⟨h1, h2⟩ := h r hr s hs hid'
+      simp only [jEv, h1, h2, hid']
+  have hcrossT : (∀ r ∈ (jKept rows).map jEv, evTimeOk r = true ∧ evCodeOk r = true) →
+      KeyConsistent (·.id) (((jKept rows).map jEv).map evOf) →
+      (jointCross (evFirst (((jKept rows).map jEv).map evOf)) ((jKept rows).map (·.row)) = true ↔
+        ∀ r ∈ jKept rows, ∀ s ∈ jKept rows, r.row.id = s.row.id → EventBefore r.time s.row.age → evCode r.code = 0) := by
+    intro hc hk
+    simp only [mem_map, forall_exists_index, and_imp, forall_apply_eq_imp_iff₂] at hc
+    rw [jointCross_iff]
+    simp only [evFirst_eq, mem_firstBy hk, mem_map, forall_exists_index, and_imp, forall_apply_eq_imp_iff₂]
+    constructor
+    · intro h r hr s hs hid hb
+      have := (hc r hr).1
+      cases ht : r.time with
+      | fin t =>
+        rw [ht] at hb
+        have := h r hr s hs hid.symm (by simpa [evOf, jEv, ht, EventBefore] using hb)
+        simpa [evOf, jEv] using this
+      | nan => rw [ht] at hb; cases hb
+      | inf => rw [ht] at hb; cases hb
+    · intro h r hr s hs hid hb
+      have hto := (hc r hr).1
+      cases ht : r.time with
+      | fin t =>
+        have := h r hr s hs hid.symm (by simpa [evOf, jEv, ht, EventBefore] using hb)
+        simpa [evOf, jEv] using this
+      | nan => simp [evTimeOk, jEv, ht] at hto
+      | inf => simp [evTimeOk, jEv, ht] at hto
+  cases hev : ingestEvents nb ((jKept rows).map jEv) with
+  | error e =>
+    simp only [reduceCtorEq, false_iff, not_and]
+    intro hw
+    have hc := hcellT.2 hw.2.2.2.1
+    have : ingestEvents nb ((jKept rows).map jEv) = .ok (evFirst (((jKept rows).map jEv).map evOf),
+        countOf nb (((jKept rows).map jEv).map (fun r => evCode r.code))) :=
+      ingestEvents_ok_iff.2 ⟨hc, (hconsT hc).2 hw.2.2.2.2.1, by
+        intro h; rw [map_eq_nil_iff] at h; rw [h] at he; simp at he, hcodes ▸ hw.2.2.2.2.2.1, rfl⟩
+    rw [hev] at this; cases this
+  | ok r =>
+    obtain ⟨evs, n⟩ := r
+    obtain ⟨hc, hk, _, hcnt, hres⟩ := ingestEvents_ok_iff.1 hev
+    simp only [Prod.mk.injEq] at hres
+    obtain ⟨rfl, rfl⟩ := hres
+    rw [hcodes] at hcnt ⊢
+    simp only
+    by_cases hx : jointCross (evFirst (((jKept rows).map jEv).map evOf)) ((jKept rows).map (·.row)) = true
+    · simp only [hx, Bool.not_true, Bool.false_eq_true, ↓reduceIte, Except.ok.injEq]
+      constructor
+      · intro h
+        exact ⟨⟨hkeys.1 hd', hne, by omega, hcellT.1 hc, (hconsT hc).1 hk, hcnt, (hcrossT hc hk).1 hx⟩, h.symm⟩
+      · rintro ⟨_, h⟩; exact h.symm
+    · simp only [hx, Bool.not_false, ↓reduceIte, reduceCtorEq, false_iff, not_and]
+      intro hw
+      exact absurd ((hcrossT hc hk).2 hw.2.2.2.2.2.2) hx
+
+theorem joint_accepts_iff (dim : Nat) (nb : Option Nat) (rows : List JRow) :
+    (∃ res, ingestJoint dim nb rows = .ok res) ↔ WellFormedJoint dim nb rows := by
+  constructor
+  · rintro ⟨res, h⟩; exact (joint_ok_iff.1 h).1
+  · intro h; exact ⟨_, joint_ok_iff.2 ⟨h, rfl⟩⟩
+
+private theorem joint_ok_parts {dim : Nat} {nb : Option Nat} {rows : List JRow} {c : Canon} {evs : List Event} {n : Nat}
+    (h : ingestJoint dim nb rows = .ok (c, evs, n)) :
+    rowKeyDup (rows.map (·.row)) = false ∧ ingestEvents nb ((jKept rows).map jEv) = .ok (evs, n) ∧
+    jointCross evs ((jKept rows).map (·.row)) = true ∧ c = canon ((jKept rows).map (·.row)) := by
+  rw [ingestJoint_eq] at h
+  by_cases hd : rowKeyDup (rows.map (·.row)) = true
+  · simp [hd] at h
+  by_cases hi : rows.any (fun r => r.time == .inf || r.code == .inf) = true
+  · simp [hd, hi] at h
+  by_cases he : (jKept rows).isEmpty = true
+  · simp [hd, hi, he] at h
+  by_cases hdim : dim < 1
+  · simp [hd, hi, he, hdim] at h
+  simp only [hd, hi, he, hdim, Bool.false_eq_true, ↓reduceIte] at h
+  cases hev : ingestEvents nb ((jKept rows).map jEv) with
+  | error e => rw [hev] at h; cases h
+  | ok r =>
+    obtain ⟨evs', n'⟩ := r
+    rw [hev] at h
+    simp only at h
+    by_cases hx : jointCross evs' ((jKept rows).map (·.row)) = true
+    · simp only [hx, Bool.not_true, Bool.false_eq_true, ↓reduceIte, Except.ok.injEq, Prod.mk.injEq] at h
+      obtain ⟨rfl, rfl, rfl⟩ := h
+      exact ⟨by simpa using hd, rfl, hx, rfl⟩
+    · simp [hx] at h
+
+/-- **What an accepted joint table becomes.**  The longitudinal part is the shared loading loop run on the rows that
+    are not entirely missing (so `visits_strictly_sorted`, `ids_first_appearance`, `no_visit_lost` apply); there is
+    exactly one event per individual, in the order of the individuals (so the reader's check "all patients must have
+    at least one visit and one event" can never fire); every kept row carries the event of its individual, unchanged;
+    the number of events is the declared one, else the largest indicator. -/
+theorem joint_result (dim : Nat) (nb : Option Nat) (rows : List JRow) (c : Canon) (evs : List Event) (n : Nat)
+    (h : ingestJoint dim nb rows = .ok (c, evs, n)) :
+    loadAll ((jKept rows).map (·.row)) = .ok c ∧
+    evs.map (·.id) = c.map (·.id) ∧
+    (∀ r ∈ jKept rows, ∃ e ∈ evs, rowOfEvent e = jEv r) ∧
+    (∀ e ∈ evs, ∃ r ∈ jKept rows, rowOfEvent e = jEv r) ∧
+    n = countOf nb ((jKept rows).map (fun r => evCode r.code)) := by
+  obtain ⟨hd, hev, _, rfl⟩ := joint_ok_parts h
+  have hk := nodup_keys_map_filter (fun r : JRow => r.row) (fun r => !jDropped r) (rowKeyDup_false_iff.1 hd)
+  obtain ⟨hc, hcons, _, _, hres⟩ := ingestEvents_ok_iff.1 hev
+  simp only [Prod.mk.injEq] at hres
+  obtain ⟨rfl, rfl⟩ := hres
+  simp only [mem_map, forall_exists_index, and_imp, forall_apply_eq_imp_iff₂] at hc
+  refine ⟨loadAll_eq_canon hk, ?_, ?_, ?_, by rw [map_map]; rfl⟩
+  · rw [evFirst_eq, firstBy_keys, canon_ids]
+    simp only [map_map]; rfl
+  · intro r hr
+    refine ⟨evOf (jEv r), ?_, evOf_toRow (hc r hr).1 (hc r hr).2⟩
+    rw [evFirst_eq, mem_firstBy hcons]
+    exact mem_map.2 ⟨jEv r, mem_map.2 ⟨r, hr, rfl⟩, rfl⟩
+  · intro e he
+    rw [evFirst_eq] at he
+    obtain ⟨x, hx, rfl⟩ := mem_map.1 (mem_firstBy_sub he)
+    obtain ⟨r, hr, rfl⟩ := mem_map.1 hx
+    exact ⟨r, hr, evOf_toRow (hc r hr).1 (hc r hr).2⟩
+
+/-- **The last visit is the latest one, not the last row.**  `lastVisit i rows` (the `groupby("ID").max()["TIME"]`
+    of the cross check) is the greatest age among the rows of individual `i`, wherever that row stands in the table,
+    and does not exist only for an individual without rows. -/
+theorem last_visit_is_max (i : Nat) (rows : List Row) :
+    (∀ a, lastVisit i rows = some a ↔ (∃ r ∈ rows, r.id = i ∧ r.age = a) ∧ ∀ r ∈ rows, r.id = i → r.age ≤ a) ∧
+    (lastVisit i rows = none ↔ ∀ r ∈ rows, r.id ≠ i) :=
+  ⟨fun _ => lastVisit_eq_some_iff, lastVisit_eq_none_iff⟩
+
+/-- … hence it is the same for every row order. -/
+theorem last_visit_perm {t₁ t₂ : List Row} (h : t₁.Perm t₂) (i : Nat) : lastVisit i t₁ = lastVisit i t₂ :=
+  lastVisit_perm h i
+
+/-- **The cross check, as coded**: it passes iff every event that is earlier than *some* visit of its individual by
+    more than the tolerance (1000 micro-units = `tol_diff`) is censored.  Comparing with the latest visit
+    (`lastVisit`, what the code does) or with every visit is the same thing. -/
+theorem joint_cross_check_iff (evs : List Event) (rows : List Row) :
+    jointCross evs rows = true ↔ ∀ e ∈ evs, ∀ r ∈ rows, r.id = e.id → e.time - r.age < -tolMicro → e.code = 0 :=
+  jointCross_iff
+
+/-- **Row-order independence of the joint layout.**  For any permutation of the rows: the same rejection, or the
+    same individuals with identical visits, the same events and the same number of events (`List.Perm`: only the
+    order of the individuals — first appearance — may differ). -/
+theorem joint_perm (dim : Nat) (nb : Option Nat) {t₁ t₂ : List JRow} (h : t₁.Perm t₂) :
+    (∀ e, ingestJoint dim nb t₁ = .error e ↔ ingestJoint dim nb t₂ = .error e) ∧
+    (∀ c₁ ev₁ n, ingestJoint dim nb t₁ = .ok (c₁, ev₁, n) →
+      ∃ c₂ ev₂, ingestJoint dim nb t₂ = .ok (c₂, ev₂, n) ∧ c₁.Perm c₂ ∧ ev₁.Perm ev₂) := by
+  have hrel : ExceptRel (fun a b => a.1.Perm b.1 ∧ a.2.1.Perm b.2.1 ∧ a.2.2 = b.2.2)
+      (ingestJoint dim nb t₁) (ingestJoint dim nb t₂) := by
+    have hk := jKept_perm h
+    rw [ingestJoint_eq, ingestJoint_eq, rowKeyDup_perm (h.map (·.row)), h.any_eq, hk.isEmpty_eq]
+    by_cases hd : rowKeyDup (t₂.map (·.row)) = true
+    · simp [hd, ExceptRel]
+    by_cases hi : t₂.any (fun r => r.time == .inf || r.code == .inf) = true
+    · simp [hd, hi, ExceptRel]
+    by_cases he : (jKept t₂).isEmpty = true
+    · simp [hd, hi, he, ExceptRel]
+    by_cases hdim : dim < 1
+    · simp [hd, hi, he, hdim, ExceptRel]
+    simp only [hd, hi, he, hdim, Bool.false_eq_true, ↓reduceIte]
+    have hn : (((jKept t₁).map (·.row)).map key).Nodup := by
+      have : rowKeyDup (t₁.map (·.row)) = false := by rw [rowKeyDup_perm (h.map (·.row))]; simpa using hd
+      exact nodup_keys_map_filter (fun r : JRow => r.row) (fun r => !jDropped r) (rowKeyDup_false_iff.1 this)
+    have hev := ingestEvents_perm nb (hk.map jEv)
+    cases h1 : ingestEvents nb ((jKept t₁).map jEv) with
+    | error e₁ =>
+      cases h2 : ingestEvents nb ((jKept t₂).map jEv) with
+      | error e₂ => rw [h1, h2] at hev; simpa [ExceptRel] using hev
+      | ok r₂ => rw [h1, h2] at hev; simp [ExceptRel] at hev
+    | ok r₁ =>
+      cases h2 : ingestEvents nb ((jKept t₂).map jEv) with
+      | error e₂ => rw [h1, h2] at hev; simp [ExceptRel] at hev
+      | ok r₂ =>
+        rw [h1, h2] at hev
+        obtain ⟨ev₁, n₁⟩ := r₁
+        obtain ⟨ev₂, n₂⟩ := r₂
+        simp only [ExceptRel] at hev
+        obtain ⟨hp, hn'⟩ := hev
+        replace hp : ev₁.Perm ev₂ := hp
+        replace hn' : n₁ = n₂ := hn'
+        subst hn'
+        simp only [jointCross_perm hp (hk.map (·.row))]
+        by_cases hx : jointCross ev₂ ((jKept t₂).map (·.row)) = true
+        · simp only [hx, Bool.not_true, Bool.false_eq_true, ↓reduceIte, ExceptRel, and_true]
+          exact ⟨canon_perm (hk.map (·.row)) hn, hp⟩
+        · simp [hx, ExceptRel]
+  refine ⟨hrel.error_iff, ?_⟩
+  intro c₁ ev₁ n h1
+  obtain ⟨⟨c₂, ev₂, n'⟩, h2, hp1, hp2, hn⟩ := hrel.ok_imp h1
+  simp only at hp1 hp2 hn
+  subst hn
+  exact ⟨c₂, ev₂, h2, hp1, hp2⟩
+
+/-
+Full-strength statement that "inconsistent events are rejected" suggests: in every accepted joint table every event
+is dated at or after the latest visit of its individual (within the tolerance).
+It is FALSE for the code that exists: a *censored* event (indicator 0) dated before the latest visit only triggers a
+warning ("you should be in a prediction set-up") — `joint_event_order_counterexample`.  It is proved for the
+observed events, the exact guard of the code — `joint_event_order_partial`.
+-/
+
+/-- an accepted joint table with a (censored) event dated one year before the latest visit of its individual -/
+theorem joint_event_order_counterexample :
+    ∃ (rows : List JRow) (c : Canon) (evs : List Event) (n : Nat) (e : Event) (a : Int),
+      ingestJoint 1 none rows = .ok (c, evs, n) ∧ e ∈ evs ∧
+      lastVisit e.id ((jKept rows).map (·.row)) = some a ∧ e.time - a < -tolMicro := by
+  refine ⟨[⟨⟨0, 70000000, [some 0]⟩, .fin 71000000, .fin 0⟩, ⟨⟨1, 70000000, [some 0]⟩, .fin 75000000, .fin 1⟩,
+      ⟨⟨0, 72000000, [some 0]⟩, .fin 71000000, .fin 0⟩], _, _, _, ⟨0, 71000000, 0⟩, 72000000, rfl, ?_, ?_, ?_⟩
+  · decide
+  · rfl
+  · decide
+
+/-- (partial: observed events) in an accepted joint table no observed event is earlier than the latest visit of its
+    individual by more than the tolerance -/
+theorem joint_event_order_partial (dim : Nat) (nb : Option Nat) (rows : List JRow) (c : Canon) (evs : List Event)
+    (n : Nat) (h : ingestJoint dim nb rows = .ok (c, evs, n)) :
+    ∀ e ∈ evs, e.code ≠ 0 → ∀ a, lastVisit e.id ((jKept rows).map (·.row)) = some a → -tolMicro ≤ e.time - a := by
+  intro e he hcode a ha
+  obtain ⟨_, _, hx, _⟩ := joint_ok_parts h
+  obtain ⟨⟨r, hr, hid, hage⟩, _⟩ := lastVisit_eq_some_iff.1 ha
+  have := jointCross_iff.1 hx e he r hr hid
+  rw [hage] at this
+  by_cases hlt : e.time - a < -tolMicro
+  · exact absurd (this hlt) hcode
+  · omega
+
+/-! ## Covariate layout -/
+
+/-- A well-formed covariate table (`dim` feature columns, `nCov` covariate names given to the reader).
+    At least one covariate name; *visit part*: no duplicate `(ID, TIME)`, some row that is not entirely missing, at
+    least one feature column; *covariate part*, on the rows that are kept (`cKept`: not entirely missing over
+    features **and** covariates): every covariate cell finite, not missing and integer valued; the covariates of an
+    individual are the same on all its rows; every covariate takes at least two values over the table. -/
+def WellFormedCov (dim nCov : Nat) (rows : List CRow) : Prop :=
+  1 ≤ nCov ∧
+  (rows.map (fun r => (r.row.id, r.row.age))).Nodup ∧
+  (∃ r ∈ rows, cDropped r = false) ∧
+  1 ≤ dim ∧
+  (∀ r ∈ rows, cDropped r = true ∨ ∀ c ∈ r.covs, CovCellOk c) ∧
+  (∀ r ∈ cKept rows, ∀ s ∈ cKept rows, r.row.id = s.row.id → r.covs = s.covs) ∧
+  (∀ k, k < nCov → ∃ r ∈ cKept rows, ∃ s ∈ cKept rows, r.covs[k]? ≠ s.covs[k]?)
+
+instance (dim nCov : Nat) (rows : List CRow) : Decidable (WellFormedCov dim nCov rows) := by
+  unfold WellFormedCov; infer_instance
+
+private theorem mem_cKept {rows : List CRow} {r : CRow} : r ∈ cKept rows ↔ r ∈ rows ∧ cDropped r = false := by
+  simp [cKept]
+
+private theorem cDropped_cells {r : CRow} (h : cDropped r = true) : ∀ c ∈ r.covs, c = .nan := by
+  simp only [cDropped, Bool.and_eq_true, all_eq_true, beq_iff_eq] at h
+  exact h.2
+
+private theorem cov_ok_iff {dim nCov : Nat} {rows : List CRow} {res : Canon × List (Nat × List Int)} :
+    ingestCov dim nCov rows = .ok res ↔
+      WellFormedCov dim nCov rows ∧
+      res = (canon ((cKept rows).map (·.row)), covFirst ((cKept rows).map covOf)) := by
+  rw [ingestCov_eq]
+  have hkeys : rowKeyDup (rows.map (·.row)) = false ↔ (rows.map (fun r => (r.row.id, r.row.age))).Nodup := by
+    rw [rowKeyDup_false_iff, map_map]; rfl
+  by_cases h0 : nCov < 1
+  · simp only [h0, ↓reduceIte, reduceCtorEq, false_iff, not_and]
+    intro hw; have := hw.1; omega
+  by_cases hd : rowKeyDup (rows.map (·.row)) = true
+  · simp only [h0, hd, ↓reduceIte, reduceCtorEq, false_iff, not_and]
+    intro hw; have := hkeys.2 hw.2.1; rw [hd] at this; cases this
+  have hd' : rowKeyDup (rows.map (·.row)) = false := by simpa using hd
+  by_cases hi : rows.any (fun r => r.covs.any (fun c => c == .inf)) = true
+  · simp only [h0, hd', hi, Bool.false_eq_true, ↓reduceIte, reduceCtorEq, false_iff, not_and]
+    intro hw
+    obtain ⟨r, hr, hinf⟩ := any_eq_true.1 hi
+    obtain ⟨c, hc, hci⟩ := any_eq_true.1 hinf
+    have hci : c = .inf := by simpa using hci
+    rcases hw.2.2.2.2.1 r hr with h | h
+    · have := cDropped_cells h c hc; rw [hci] at this; cases this
+    · exact absurd hci (h c hc).2.1
+  by_cases he : (cKept rows).isEmpty = true
+  · simp only [h0, hd', hi, he, Bool.false_eq_true, ↓reduceIte, reduceCtorEq, false_iff, not_and]
+    intro hw
+    obtain ⟨r, hr, hk⟩ := hw.2.2.1
+    have : r ∈ cKept rows := mem_cKept.2 ⟨hr, hk⟩
+    rw [isEmpty_iff.1 he] at this; cases this
+  by_cases hdim : dim < 1
+  · simp only [h0, hd', hi, he, hdim, Bool.false_eq_true, ↓reduceIte, reduceCtorEq, false_iff, not_and]
+    intro hw; have := hw.2.2.2.1; omega
+  have hne : ∃ r ∈ rows, cDropped r = false := by
+    cases hk : cKept rows with
+    | nil => rw [hk] at he; simp at he
+    | cons r rs =>
+      have : r ∈ cKept rows := by rw [hk]; simp
+      exact ⟨r, (mem_cKept.1 this).1, (mem_cKept.1 this).2⟩
+  have hinf : ∀ r ∈ rows, ∀ c ∈ r.covs, c ≠ .inf := by
+    intro r hr c hc heq
+    exact hi (any_eq_true.2 ⟨r, hr, any_eq_true.2 ⟨c, hc, by simp [heq]⟩⟩)
+  by_cases h4 : (cKept rows).any (fun r => r.covs.any (fun c => c == .nan)) = true
+  · simp only [h0, hd', hi, he, hdim, h4, Bool.false_eq_true, ↓reduceIte, reduceCtorEq, false_iff, not_and]
+    intro hw
+    obtain ⟨r, hr, hnan⟩ := any_eq_true.1 h4
+    obtain ⟨c, hc, hcn⟩ := any_eq_true.1 hnan
+    have := mem_cKept.1 hr
+    rcases hw.2.2.2.2.1 r this.1 with h | h
+    · rw [this.2] at h; cases h
+    · exact absurd (by simpa using hcn) (h c hc).1
+  by_cases h5 : (cKept rows).any (fun r => r.covs.any (fun c => !covIntOk c)) = true
+  · simp only [h0, hd', hi, he, hdim, h4, h5, Bool.false_eq_true, ↓reduceIte, reduceCtorEq, false_iff, not_and]
+    intro hw
+    obtain ⟨r, hr, hni⟩ := any_eq_true.1 h5
+    obtain ⟨c, hc, hcn⟩ := any_eq_true.1 hni
+    have := mem_cKept.1 hr
+    rcases hw.2.2.2.2.1 r this.1 with h | h
+    · rw [this.2] at h; cases h
+    · have := (h c hc).2.2; simp [this] at hcn
+  -- every kept cell is acceptable
+  have hcell : ∀ r ∈ cKept rows, ∀ c ∈ r.covs, CovCellOk c := by
+    intro r hr c hc
+    refine ⟨fun hn => h4 (any_eq_true.2 ⟨r, hr, any_eq_true.2 ⟨c, hc, by simp [hn]⟩⟩), hinf r (mem_cKept.1 hr).1 c hc, ?_⟩
+    cases hb : covIntOk c with
+    | true => rfl
+    | false => exact absurd (any_eq_true.2 ⟨r, hr, any_eq_true.2 ⟨c, hc, by simp [hb]⟩⟩) h5
+  have hcellT : ∀ r ∈ rows, cDropped r = true ∨ ∀ c ∈ r.covs, CovCellOk c := by
+    intro r hr
+    by_cases hk : cDropped r = true
+    · exact Or.inl hk
+    · exact Or.inr (hcell r (mem_cKept.2 ⟨hr, by simpa using hk⟩))
+  have hconsT : KeyConsistent (·.1) ((cKept rows).map covOf) ↔
+      ∀ r ∈ cKept rows, ∀ s ∈ cKept rows, r.row.id = s.row.id → r.covs = s.covs := by
+    simp only [KeyConsistent, mem_map, forall_exists_index, and_imp, forall_apply_eq_imp_iff₂]
+    constructor
+    · intro h r hr s hs hid
+      have := h r hr s hs hid
+      simp only [covOf, Prod.mk.injEq] at this
+      exact map_covNum_inj (hcell r hr) (hcell s hs) this.2
+    · intro h r hr s hs hid
+      have hid' : r.row.id = s.row.id := hid
+      simp only [covOf, hid', h r hr s hs hid']
+  have hvarT : covVaries nCov ((cKept rows).map covOf) = true ↔
+      ∀ k, k < nCov → ∃ r ∈ cKept rows, ∃ s ∈ cKept rows, r.covs[k]? ≠ s.covs[k]? := by
+    rw [covVaries_iff]
+    constructor
+    · intro h k hk
+      obtain ⟨a, ha, b, hb, hne⟩ := h k hk
+      obtain ⟨r, hr, rfl⟩ := mem_map.1 ha
+      obtain ⟨s, hs, rfl⟩ := mem_map.1 hb
+      exact ⟨r, hr, s, hs, (getElem?_covNum_ne (hcell r hr) (hcell s hs) k).1 hne⟩
+    · intro h k hk
+      obtain ⟨r, hr, s, hs, hne⟩ := h k hk
+      exact ⟨covOf r, mem_map.2 ⟨r, hr, rfl⟩, covOf s, mem_map.2 ⟨s, hs, rfl⟩,
+        (getElem?_covNum_ne (hcell r hr) (hcell s hs) k).2 hne⟩
+  simp only [h0, hd', hi, he, hdim, h4, h5, Bool.false_eq_true, ↓reduceIte]
+  by_cases h6 : covConsistent ((cKept rows).map covOf) = true
+  · by_cases h7 : covVaries nCov ((cKept rows).map covOf) = true
+    · simp only [h6, h7, Bool.not_true, Bool.false_eq_true, ↓reduceIte, Except.ok.injEq]
+      constructor
+      · intro h
+        exact ⟨⟨by omega, hkeys.1 hd', hne, by omega, hcellT, hconsT.1 (covConsistent_iff.1 h6), hvarT.1 h7⟩, h.symm⟩
+      · rintro ⟨_, h⟩; exact h.symm
+    · simp only [h6, h7, Bool.not_true, Bool.not_false, Bool.false_eq_true, ↓reduceIte, reduceCtorEq, false_iff, not_and]
+      intro hw
+      exact absurd (hvarT.2 hw.2.2.2.2.2.2) h7
+  · simp only [h6, Bool.not_false, ↓reduceIte, reduceCtorEq, false_iff, not_and]
+    intro hw
+    exact absurd (covConsistent_iff.2 (hconsT.2 hw.2.2.2.2.2.1)) h6
+
+/-- **Covariates, both directions.**  `Data.from_dataframe(df, "covariate", covariate_names=…)` accepts a table iff
+    it is well-formed (`WellFormedCov`): no covariate name, a duplicate visit, an infinite, missing or fractional
+    covariate on a kept row, a covariate that differs between two rows of one individual, a covariate with a single
+    value over the table, nothing observed, or no feature column are each refused — and nothing else is. -/
+theorem covariate_accepts_iff (dim nCov : Nat) (rows : List CRow) :
+    (∃ res, ingestCov dim nCov rows = .ok res) ↔ WellFormedCov dim nCov rows := by
+  constructor
+  · rintro ⟨res, h⟩; exact (cov_ok_iff.1 h).1
+  · intro h; exact ⟨_, cov_ok_iff.2 ⟨h, rfl⟩⟩
+
+/-- **What an accepted covariate table becomes.**  The longitudinal part is the shared loading loop on the rows that
+    are not entirely missing; there is one covariate vector per individual, in the order of the individuals; it is
+    the (integer) covariate vector of *every* kept row of that individual — not only of its first row. -/
+theorem covariate_result (dim nCov : Nat) (rows : List CRow) (c : Canon) (covs : List (Nat × List Int))
+    (h : ingestCov dim nCov rows = .ok (c, covs)) :
+    loadAll ((cKept rows).map (·.row)) = .ok c ∧
+    covs.map (·.1) = c.map (·.id) ∧
+    (∀ r ∈ cKept rows, (r.row.id, r.covs.map covNum) ∈ covs) ∧
+    (∀ x ∈ covs, ∃ r ∈ cKept rows, x = (r.row.id, r.covs.map covNum)) := by
+  obtain ⟨hw, hres⟩ := cov_ok_iff.1 h
+  simp only [Prod.mk.injEq] at hres
+  obtain ⟨rfl, rfl⟩ := hres
+  have hk : (((cKept rows).map (·.row)).map key).Nodup := by
+    have : ((rows.map (·.row)).map key).Nodup := by rw [map_map]; exact hw.2.1
+    exact nodup_keys_map_filter (fun r : CRow => r.row) (fun r => !cDropped r) this
+  have hcons : KeyConsistent (·.1) ((cKept rows).map covOf) := by
+    simp only [KeyConsistent, mem_map, forall_exists_index, and_imp, forall_apply_eq_imp_iff₂]
+    intro r hr s hs hid
+    have hid' : r.row.id = s.row.id := hid
+    simp only [covOf, hid', hw.2.2.2.2.2.1 r hr s hs hid']
+  refine ⟨loadAll_eq_canon hk, ?_, ?_, ?_⟩
+  · rw [covFirst_eq, firstBy_keys, canon_ids]
+    simp only [map_map]; rfl
+  · intro r hr
+    rw [covFirst_eq, mem_firstBy hcons]
+    exact mem_map.2 ⟨r, hr, rfl⟩
+  · intro x hx
+    rw [covFirst_eq] at hx
+    obtain ⟨r, hr, rfl⟩ := mem_map.1 (mem_firstBy_sub hx)
+    exact ⟨r, hr, rfl⟩
+
+/-- **Row-order independence of the covariate layout.** -/
+theorem covariate_perm (dim nCov : Nat) {t₁ t₂ : List CRow} (h : t₁.Perm t₂) :
+    (∀ e, ingestCov dim nCov t₁ = .error e ↔ ingestCov dim nCov t₂ = .error e) ∧
+    (∀ c₁ v₁, ingestCov dim nCov t₁ = .ok (c₁, v₁) →
+      ∃ c₂ v₂, ingestCov dim nCov t₂ = .ok (c₂, v₂) ∧ c₁.Perm c₂ ∧ v₁.Perm v₂) := by
+  have hrel : ExceptRel (fun a b => a.1.Perm b.1 ∧ a.2.Perm b.2) (ingestCov dim nCov t₁) (ingestCov dim nCov t₂) := by
+    have hk := cKept_perm h
+    rw [ingestCov_eq, ingestCov_eq, rowKeyDup_perm (h.map (·.row)), h.any_eq, hk.isEmpty_eq, hk.any_eq, hk.any_eq,
+      covConsistent_perm (hk.map covOf), covVaries_congr (l₁ := (cKept t₁).map covOf) (l₂ := (cKept t₂).map covOf)
+        (fun x => (hk.map covOf).mem_iff)]
+    by_cases h0 : nCov < 1
+    · simp [h0, ExceptRel]
+    by_cases hd : rowKeyDup (t₂.map (·.row)) = true
+    · simp [h0, hd, ExceptRel]
+    have hn : (((cKept t₁).map (·.row)).map key).Nodup := by
+      have : rowKeyDup (t₁.map (·.row)) = false := by rw [rowKeyDup_perm (h.map (·.row))]; simpa using hd
+      exact nodup_keys_map_filter (fun r : CRow => r.row) (fun r => !cDropped r) (rowKeyDup_false_iff.1 this)
+    repeat' split
+    all_goals first | (simp only [ExceptRel]; done) | skip
+    rename_i hcons _
+    simp only [ExceptRel]
+    refine ⟨canon_perm (hk.map (·.row)) hn, ?_⟩
+    rw [covFirst_eq, covFirst_eq]
+    apply firstBy_perm (hk.map covOf)
+    exact (covConsistent_iff.1 (by simpa using hcons) : KeyConsistent (·.1) ((cKept t₂).map covOf)).perm (hk.map covOf).symm
+  refine ⟨hrel.error_iff, ?_⟩
+  intro c₁ v₁ h1
+  obtain ⟨⟨c₂, v₂⟩, h2, hp1, hp2⟩ := hrel.ok_imp h1
+  exact ⟨c₂, v₂, h2, hp1, hp2⟩
 
 /-! ## Non-vacuity -/
 
@@ -505,5 +1153,55 @@ example : ingestRaw ⟨⟨.string, false, false, false⟩, true, [true],
 /-- a negative event indicator next to a second event type is refused (it was silently recoded before F9c) -/
 example : ingestEventTable none [⟨1, .fin 75000000, .fin 2⟩, ⟨0, .fin 73000000, .fin (-1)⟩] = .error .eventCode := by
   rfl
+
+/-- a well-formed table of events (decided by evaluation), with a row that is dropped; it is accepted, in table order -/
+example : WellFormedEvents none [⟨1, .fin 75000000, .fin 2⟩, ⟨0, .fin 73000000, .fin 0⟩, ⟨2, .nan, .nan⟩] := by
+  decide +kernel
+
+example : ingestEventTable none [⟨1, .fin 75000000, .fin 2⟩, ⟨0, .fin 73000000, .fin 0⟩, ⟨2, .nan, .nan⟩] =
+    .ok ([⟨1, 75000000, 2⟩, ⟨0, 73000000, 0⟩], 2) := by rfl
+
+/-- malformed tables of events: a repeated individual, no observed event and no declared count, a declared count
+    that is not the largest indicator -/
+example : ¬ WellFormedEvents none [⟨1, .fin 75000000, .fin 1⟩, ⟨1, .fin 75000000, .fin 1⟩] := by decide +kernel
+example : ¬ WellFormedEvents none [⟨1, .fin 75000000, .fin 0⟩] ∧ WellFormedEvents (some 1) [⟨1, .fin 75000000, .fin 0⟩] := by
+  decide +kernel
+example : ¬ WellFormedEvents (some 3) [⟨1, .fin 75000000, .fin 2⟩] := by decide +kernel
+
+/-- an observed event between the first-listed (latest) and the last-listed (earlier) visit is refused, in both row
+    orders; the same event censored is accepted -/
+example :
+    ingestJoint 1 none [⟨⟨0, 72000000, [some 0]⟩, .fin 71000000, .fin 1⟩, ⟨⟨0, 70000000, [some 0]⟩, .fin 71000000, .fin 1⟩]
+      = .error .eventBefore ∧
+    ingestJoint 1 none [⟨⟨0, 70000000, [some 0]⟩, .fin 71000000, .fin 1⟩, ⟨⟨0, 72000000, [some 0]⟩, .fin 71000000, .fin 1⟩]
+      = .error .eventBefore ∧
+    (∃ res, ingestJoint 1 (some 1) [⟨⟨0, 72000000, [some 0]⟩, .fin 71000000, .fin 0⟩, ⟨⟨0, 70000000, [some 0]⟩, .fin 71000000, .fin 0⟩]
+      = .ok res) := by
+  refine ⟨by rfl, by rfl, ⟨_, rfl⟩⟩
+
+/-- a well-formed joint table: two individuals, unsorted rows, a row without observation that still carries the
+    event, an event within the tolerance before the last visit -/
+example : WellFormedJoint 1 none
+    [⟨⟨1, 71500000, [some 0]⟩, .fin 71499500, .fin 1⟩, ⟨⟨0, 70250000, [none]⟩, .fin 73000000, .fin 0⟩,
+     ⟨⟨1, 70500000, [some 0]⟩, .fin 71499500, .fin 1⟩] :=
+  (joint_accepts_iff _ _ _).1 ⟨_, rfl⟩
+
+/-- malformed joint tables: two events for one individual; an event cell missing on a kept row -/
+example : ingestJoint 1 none [⟨⟨1, 70000000, [some 0]⟩, .fin 75000000, .fin 1⟩, ⟨⟨1, 71000000, [some 0]⟩, .fin 76000000, .fin 1⟩]
+    = .error .eventUnique := by rfl
+example : ingestJoint 1 none [⟨⟨1, 70000000, [some 0]⟩, .fin 75000000, .fin 1⟩, ⟨⟨1, 71000000, [some 0]⟩, .nan, .nan⟩]
+    = .error .eventTime := by rfl
+
+/-- a well-formed covariate table, and malformed ones: a covariate that varies within an individual (whatever the
+    row order), a fractional covariate, a covariate with a single value over the table -/
+example : WellFormedCov 1 1 [⟨⟨1, 71500000, [some 0]⟩, [.fin 1]⟩, ⟨⟨0, 70250000, [some 0]⟩, [.fin 0]⟩, ⟨⟨1, 70500000, [none]⟩, [.fin 1]⟩] :=
+  (covariate_accepts_iff _ _ _).1 ⟨_, rfl⟩
+example : ingestCov 1 1 [⟨⟨1, 71500000, [some 0]⟩, [.fin 1]⟩, ⟨⟨0, 70250000, [some 0]⟩, [.fin 0]⟩, ⟨⟨1, 70500000, [some 0]⟩, [.fin 2]⟩]
+    = .error .covUnique := by rfl
+example : ingestCov 1 1 [⟨⟨1, 70500000, [some 0]⟩, [.fin 2]⟩, ⟨⟨0, 70250000, [some 0]⟩, [.fin 0]⟩, ⟨⟨1, 71500000, [some 0]⟩, [.fin 1]⟩]
+    = .error .covUnique := by rfl
+example : ¬ WellFormedCov 1 1 [⟨⟨1, 71500000, [some 0]⟩, [.fin (1/2)]⟩, ⟨⟨0, 70250000, [some 0]⟩, [.fin 0]⟩] := by decide +kernel
+example : ingestCov 1 1 [⟨⟨1, 71500000, [some 0]⟩, [.fin 1]⟩, ⟨⟨0, 70250000, [some 0]⟩, [.fin 1]⟩] = .error .covConstant := by rfl
+
 
 end LeaspyVerif.C14
